@@ -399,7 +399,7 @@ def rfc_points():
     check('flowspec value widths', upd.flowspec_ops('=255|=256|=65535|=65536|=4294967295|=4294967296'),
           b'\x01\xff\x11\x01\x00\x11\xff\xff\x21\x00\x01\x00\x00\x21\xff\xff\xff\xff\xb1\x00\x00\x00\x01\x00\x00\x00\x00')
     check('flowspec ops', [upd.flowspec_ops(t)[0] for t in ('=1', '<1', '>1', '<=1', '>=1', '><1')], [0x81, 0x84, 0x82, 0x85, 0x83, 0x86])
-    check('flowspec component order', upd.flowspec_rule({6: '=1', 2: '10.0.0.0/8', 5: '=2'}), b'\x0a\x02\x08\x0a\x05\x81\x02\x06\x81\x01')
+    check('flowspec component order', upd.flowspec_rule({6: '=1', 2: '10.0.0.0/8', 5: '=2'}), b'\x09\x02\x08\x0a\x05\x81\x02\x06\x81\x01')
     # withdraw + attributes + NLRI in one message
     m = {'attr': {1: 0, 2: [], 3: '10.0.0.1'}, 'nlri': ['10.0.0.0/8'], 'withdraw': ['20.0.0.0/8']}
     check('withdraw and announce', upd.encode_body(m), b'\x00\x02\x08\x14\x00\x0e@\x01\x01\x00@\x02\x00@\x03\x04\x0a\x00\x00\x01\x08\x0a')
@@ -449,11 +449,13 @@ def triple(d):
 
 
 def roundtrip(name, msg, asn4, add_path=False, opts=None):
-    ok, why = upd.in_range(msg, asn4, add_path, opts)
-    if not ok:
-        check(name + ' in_range: ' + why, ok, True)
+    try:
+        body = upd.encode_body(msg, asn4, add_path, opts)
+    except upd.OutOfRange as e:
+        if opts and 'exceeds 4096' in str(e):
+            return None             # a variant switch made a big message too big: not a case
+        check(name + ' in_range: %s' % e, False, True)
         return None
-    body = upd.encode_body(msg, asn4, add_path, opts)
     check(name + ' structure', structural(body), True)
     try:
         got = triple(upd.decode_update(body, asn4, add_path))
